@@ -29,6 +29,9 @@ import (
 type C13Case struct {
 	Prog      gen.ProgCase `json:"prog"`
 	BreakFile int          `json:"break_file"` // >= 0: one compile error injected into that file
+	// SyntaxErrors: files that get an (independent) syntax error each. With two or more, the error text
+	// may depend on the file order - but never on the repetition or the process.
+	SyntaxErrors []int `json:"syntax_errors,omitempty"`
 }
 
 func placeholderNames(m *ast.MsgNode) string {
@@ -61,6 +64,11 @@ func artefact(c C13Case, order []int) (art string, imports int, suffixed bool) {
 	names, srcs := gen.Sources(&c.Prog.Prog)
 	if c.BreakFile >= 0 && c.BreakFile < len(srcs) {
 		srcs[c.BreakFile] += "\n/** */\n{template .zzBroken}{call .zzNoSuchTemplate /}{/template}\n"
+	}
+	for _, k := range c.SyntaxErrors { // independent syntax errors in several files
+		if k >= 0 && k < len(srcs) {
+			srcs[k] += fmt.Sprintf("\n/** */\n{template .zzSyntax%d}{if}broken %d{/template}\n", k, k)
+		}
 	}
 	on, os_ := make([]string, len(order)), make([]string, len(order))
 	for i, k := range order {
@@ -198,6 +206,9 @@ func checkC13(c C13Case) Verdict {
 	}
 	for _, o := range permutations(n) {
 		if perm, _, _ := artefact(c, o); perm != base {
+			if len(c.SyntaxErrors)+b2i(c.BreakFile >= 0) >= 2 && strings.HasPrefix(perm, "reject") && strings.HasPrefix(base, "reject") {
+				continue // which of several independent errors is reported first may depend on the order
+			}
 			return bad(true, "file order %v produced a different artefact; first difference at %s\n%s", o, firstDiff(base, perm), showSources(names, srcs))
 		}
 	}
@@ -268,6 +279,13 @@ func genC13(t *rapid.T) C13Case {
 	if rapid.IntRange(0, 7).Draw(t, "break") == 0 {
 		c.BreakFile = rapid.IntRange(0, len(pc.Prog.Files)-1).Draw(t, "breakFile")
 	}
+	if rapid.IntRange(0, 5).Draw(t, "syntax") == 0 {
+		for i := range pc.Prog.Files {
+			if rapid.IntRange(0, 2).Draw(t, "syntaxIn") > 0 {
+				c.SyntaxErrors = append(c.SyntaxErrors, i)
+			}
+		}
+	}
 	return c
 }
 
@@ -292,3 +310,10 @@ func TestC13Child(t *testing.T) {
 }
 
 var _ = ref.OK
+
+func b2i(b bool) int {
+	if b {
+		return 1
+	}
+	return 0
+}
